@@ -9,9 +9,10 @@ import (
 
 const scheduled = false
 
-func rtGo(f func())    { go f() }
-func rtYield()         { runtime.Gosched() }
-func rtSpawn(f func()) { go f() }
+func rtGo(f func())     { go f() }
+func rtYield()          { runtime.Gosched() }
+func rtSetFine(on bool) {}
+func rtSpawn(f func())  { go f() }
 
 type rtJoiner = sync.WaitGroup
 
